@@ -275,21 +275,21 @@ func init() {
 
 	planTable["C02"] = func(q bool) *Plan {
 		p := &Plan{Level: "model_checking", Engine: "E-sched",
-			Text:      "All 78 unordered pairs of 12 transaction programs over keys x,y (blind writes, read-modify-write, cross reads, read-only, reads through Get, iterator Item and Seek) and 12 triples with a long-running reader-writer are run under every interleaving up to the preemption bound; per execution: Commit returns ErrConflict IFF a transaction with commitTs > readTs, checked earlier, wrote a key it read (no missed and no spurious conflicts); rejected writes invisible; the committed history replayed serially in commit-ts order reproduces every committed transaction's reads. Managed mode: all orders of up to 3 CommitAt transactions with non-monotonic timestamps between a transaction's read and its commit.",
+			Text:      "All 91 unordered pairs of 13 transaction programs over keys x,y (blind writes, read-modify-write, cross reads, read-only, reads through Get, iterator Item and Seek, and an iterator created before the transaction writes the key it then reads through it) and 12 triples with a long-running reader-writer are run under every interleaving up to the preemption bound; per execution: Commit returns ErrConflict IFF a transaction with commitTs > readTs, checked earlier, wrote a key it read (no missed and no spurious conflicts); rejected writes invisible; the committed history replayed serially in commit-ts order reproduces every committed transaction's reads. Managed mode: all orders of up to 3 CommitAt transactions with non-monotonic timestamps between a transaction's read and its commit, with SetDiscardTs (which cleans the conflict log, kept in commit order) called at every position.",
 			Note:      "Key fingerprints of x and y asserted distinct; points: before each API call, after the conflict check/timestamp allocation, before doneCommit.",
 			Technique: "stateless model checking (controlled scheduler, preemption-bounded DFS) plus exhaustive enumeration of managed-mode histories",
 			Rule:      "schedules of each pair/triple up to the bound; distinct = distinct (verdict, commit order) outcomes per case"}
 		if q {
 			p.Stages = []Stage{
-				sched("c02pair", 2, 16, 40, prm("cases", 78)),
+				sched("c02pair", 2, 16, 40, prm("cases", 91)),
 				sched("c02triple", 2, 12, 40, prm("cases", 12)),
 				en("c02managed", 4, 30, nil),
-				sched("c02pair", 3, 16, 40, prm("cases", 78)), // budgeted: reported as capped if it does not finish
+				sched("c02pair", 3, 16, 40, prm("cases", 91)), // budgeted: reported as capped if it does not finish
 			}
 		} else {
 			p.Stages = []Stage{
-				sched("c02pair", 2, 16, 300, prm("cases", 78)),
-				sched("c02pair", 3, 16, 600, prm("cases", 78)),
+				sched("c02pair", 2, 16, 300, prm("cases", 91)),
+				sched("c02pair", 3, 16, 600, prm("cases", 91)),
 				sched("c02triple", 2, 12, 600, prm("cases", 12)),
 				en("c02managed", 4, 60, nil),
 			}
